@@ -7,6 +7,8 @@ Tie X: an in-package probe of goom's root package performs each generated config
 (fresh builder, real targets of 32+6+5 signatures) and prints rejection class, error chain, erro.Cause walk, the
 diff of the whole .text section, the target's behaviour, the patches[] entry; `goomdrv` prints what the model says.
 The oracle states the property on the implementation's observations alone (tags of the injected mistake).
+Sequence ops (`seqf/seqm/seqi`) run several configuration calls on ONE mocker (Returns/AndReturn, a second When/In/Matches on
+the handle or through a repeated lookup, Apply in between); the observation is about the first rejected (or the last) call.
 """
 import os
 
@@ -21,7 +23,8 @@ META = {
     'level_text': 'Full proof on the model: for every signature, callback, value list and prior patch state, a rejected configuration '
                   'call performs no write to the executable image, mocks no target that was not mocked, leaves the registry '
                   'unchanged or with exactly one inert entry for the target (proved harmless), every listed mistake class is '
-                  'rejected, acceptance implies matching counts and slot sizes, and the erro.Cause walk ends at the typed cause. '
+                  'rejected, acceptance implies matching counts and slot sizes, the erro.Cause walk ends at the typed cause, and the same '
+                  'no-op guarantee holds for a rejected call at any point of a configuration sequence on one mocker. '
                   'The model is tied to the source by running it against the real API on every generated call.',
     'level_note': 'Trusted: Lean kernel (propext, Classical.choice, Quot.sound), the hand transcription Model/Reject.lean (checked against '
                   'the real code on every generated call: class, chain, walk, .text diff, behaviour, registry), the probe and its '
@@ -253,6 +256,130 @@ class Gen:
                     continue
                 self.add(f'{h} as {lst(full)} {lst(mouts)} when {lst(args)} return {lst(mouts)}', tag)
 
+    # ---- sequences: Returns / AndReturn and follow-up matchers on a mocker that is already configured
+    def group_cases(self, outs):
+        """(groups-string, tag) for Returns(...): the offending value at every position of the first and of a later group"""
+        rng, out = self.rng, []
+        ok = lst(outs)
+        out.append((f'{ok}|{ok}', 'accept'))
+        out.append((f'{ok}|{ok}|{ok}', 'accept'))
+        for k in (0, 1):
+            def put(g):
+                return f'{g}|{ok}' if k == 0 else f'{ok}|{g}'
+            for p, t in enumerate(outs):
+                b = val_bad_size(t, rng)
+                if b:
+                    out.append((put(lst(outs[:p] + [b] + outs[p + 1:])), f'returns-size:{p}'))
+                if T[t][2] not in NILABLE:
+                    out.append((put(lst(outs[:p] + ['nil'] + outs[p + 1:])), 'returns-nil'))
+            if len(outs) > 1:
+                out.append((put(lst(outs[:-1])), 'returns-count'))
+            out.append((put(lst(outs + ['int'])), 'returns-count'))
+        return out
+
+    def follow_cases(self, ins, outs):
+        """(step-string, tag): a second matcher on an already configured mocker; ins without receiver/ctx, non-variadic"""
+        rng, out = self.rng, []
+        n, okr, oka = len(ins), lst(outs), lst(ins)
+        out.append((f'when {oka} ; return {okr}', 'accept'))
+        out.append((f'when {lst(["any()"] * n)}', 'accept'))
+        out.append((f'in {oka}|{lst(["any()"] + ins[1:])}', 'accept'))
+        if outs:
+            out.append((f'matches {oka}={okr}|{lst(["any()"] * n)}={okr}', 'accept'))
+        for k in range(0, n):
+            few = lst(ins[:k])
+            out.append((f'when {few}', 'seq-when-few'))
+            if k > 0:
+                out.append((f'in {few}|{few}', 'seq-in-few'))
+                out.append((f'in {oka}|{few}', 'seq-in-few'))
+                if outs:
+                    out.append((f'matches {few}={okr}', 'seq-matches-few'))
+                    out.append((f'matches {oka}={okr}|{few}={okr}', 'seq-matches-few'))
+        many = lst(ins + ['int'])
+        out.append((f'when {many}', 'seq-when-many'))
+        out.append((f'in {many}', 'seq-in-many'))
+        if outs:
+            out.append((f'matches {many}={okr}', 'seq-matches-many'))
+            if len(outs) > 1:
+                out.append((f'matches {oka}={lst(outs[:-1])}', 'seq-matches-retcount'))
+            out.append((f'matches {oka}={lst(outs + ["int"])}', 'seq-matches-retcount'))
+        for p_, t in enumerate(ins):
+            b = val_bad_size(t, rng)
+            if b:
+                bad = lst(ins[:p_] + [b] + ins[p_ + 1:])
+                out.append((f'when {bad}', f'seq-when-size:{p_}'))
+                out.append((f'in {bad}', f'seq-in-size:{p_}'))
+        return out
+
+    def gen_seq(self):
+        rng = self.rng
+
+        def emit(head_of, ins, outs, var, pres):
+            okr, oka = lst(outs), lst(ins)
+            if outs:
+                for (g, tag) in self.group_cases(outs):
+                    self.add(f'{head_of(rng.choice(pres))} returns {g}', tag)
+                    if tag != 'accept' and rng.chance(1, 2):
+                        self.add(f'{head_of(rng.choice(pres))} return {okr} ; returns {g}', 'second:' + tag)
+                    if tag != 'accept' and ins and not var and rng.chance(1, 2):
+                        self.add(f'{head_of(0)} when {oka} ; returns {g}', 'second:' + tag)
+                for (vals, tag) in self.ret_cases(outs):
+                    if tag not in ('accept',) and vals:
+                        self.add(f'{head_of(rng.choice(pres))} return {okr} ; andreturn {lst(vals)}', 'second:' + tag)
+                        if ins and not var:
+                            self.add(f'{head_of(0)} when {oka} ; return {okr} ; andreturn {lst(vals)}', 'second:' + tag)
+            if ins and not var:
+                firsts = [f'when {oka} ; return {okr}'] + ([f'return {okr}'] if outs else [])
+                for (st, tag) in self.follow_cases(ins, outs):
+                    first = rng.choice(firsts)
+                    self.add(f'{head_of(rng.choice(pres))} {first} ; {st}', tag)
+                    if st.startswith('when') or rng.chance(1, 3):
+                        self.add(f'{head_of(0)} {first} ; again ; {st}', tag)
+                # Apply discards the When: the next When is a first call again (typed cause through checkParams)
+                if len(ins) > 1:
+                    self.add(f'{head_of(0)} {firsts[0]} ; again ; apply {oka} {okr} 0 ; when {lst(ins[:1])}', 'when-few')
+                self.add(f'{head_of(0)} {firsts[0]} ; again ; apply {oka} {okr} 0 ; when {oka} ; return {okr}', 'accept')
+
+        for name, (ins, outs, var) in Z.FUNCS.items():
+            emit(lambda pre, name=name, ins=ins, outs=outs, var=var: f'seqf {name} {lst(ins)} {lst(outs)} {int(var)} {pre}', ins, outs, var, [0, 0, 1])
+        for name, (ins0, outs, var) in Z.METHODS.items():
+            full = ['prc'] + ins0
+            hm = f'seqm {name} {lst(full)} {lst(outs)} {int(var)}'
+            # for methods the apply step needs the receiver in the callback
+            def emit_m():
+                okr, oka = lst(outs), lst(ins0)
+                if outs:
+                    for (g, tag) in self.group_cases(outs):
+                        self.add(f'{hm} returns {g}', tag)
+                        if tag != 'accept':
+                            self.add(f'{hm} return {okr} ; returns {g}', 'second:' + tag)
+                    for (vals, tag) in self.ret_cases(outs):
+                        if tag != 'accept' and vals:
+                            self.add(f'{hm} return {okr} ; andreturn {lst(vals)}', 'second:' + tag)
+                if ins0 and not var:
+                    firsts = [f'when {oka} ; return {okr}'] + ([f'return {okr}'] if outs else [])
+                    for (st, tag) in self.follow_cases(ins0, outs):
+                        self.add(f'{hm} {rng.choice(firsts)} ; {st}', tag)
+                        self.add(f'{hm} {rng.choice(firsts)} ; again ; {st}', tag)
+            emit_m()
+        for name, (mins, mouts) in Z.IMETHODS.items():
+            full = ['ictx'] + mins
+            hi = f'seqi {name} {lst(mins)} {lst(mouts)} {lst(full)} {lst(mouts)}'
+            okr, oka = lst(mouts), lst(mins)
+            if mouts:
+                for (g, tag) in self.group_cases(mouts):
+                    self.add(f'{hi} returns {g}', tag)
+                    if tag != 'accept':
+                        self.add(f'{hi} return {okr} ; returns {g}', 'second:' + tag)
+                for (vals, tag) in self.ret_cases(mouts):
+                    if tag != 'accept' and vals:
+                        self.add(f'{hi} return {okr} ; andreturn {lst(vals)}', 'second:' + tag)
+            if mins:
+                firsts = [f'when {oka} ; return {okr}'] + ([f'return {okr}'] if mouts else [])
+                for (st, tag) in self.follow_cases(mins, mouts):
+                    self.add(f'{hi} {rng.choice(firsts)} ; {st}', tag)
+                    self.add(f'{hi} {rng.choice(firsts)} ; again ; {st}', tag)
+
     def gen_random(self, n):
         """random signatures are impossible (targets are real functions); random LANES: re-draw the offending types/positions"""
         rng = self.rng
@@ -293,6 +420,7 @@ def generate(tier, rng):
     g.gen_methods()
     g.gen_export()
     g.gen_iface()
+    g.gen_seq()
     g.gen_random(400 if tier == 'quick' else 12000)
     seen, ops, tags = set(), [], []
     for o, t in zip(g.ops, g.tags):
@@ -331,6 +459,8 @@ def oracle(op, tag, obs):
     f = fields(obs)
     rejected = obs.startswith('rej:')
     form = op.split()[1]
+    if form in ('seqf', 'seqm', 'seqi'):
+        return oracle_seq(op, tag, f, rejected)
     second = tag.startswith('second:')
     mistake = tag[7:] if second else tag
     if tag == 'accept':
@@ -358,6 +488,34 @@ def oracle(op, tag, obs):
             return ('rejected interface mock still replaced the variable', 'iface-var')
     if 'after' in f and f['after'] != 'ok' and f['after'] != '-':
         return (f'after this call a correct mock of the same target no longer works: {f["after"]}', 'after')
+    return None
+
+
+def oracle_seq(op, tag, f, rejected):
+    """sequence ops: the observation is about the last executed configuration call, relative to the state right before it"""
+    nsteps = op.count(' ; ') + 1
+    mistake = tag[7:] if tag.startswith('second:') else tag
+    if tag != 'accept':
+        if not rejected:
+            return (f'mistake `{mistake}` (last call of the sequence) was accepted at configuration time', 'accepted:' + mistake.split(':')[0])
+        if mistake == 'when-few' and not f.get('walk', '').startswith('argsnotmatch'):
+            return (f'mistake `{mistake}`: the cause chain {f.get("chain")} walks to {f.get("walk")}, not to the typed cause argsnotmatch', 'cause:when-few')
+    if rejected:
+        before, beh = f.get('before'), f.get('beh')
+        if f.get('diff', 'none') != 'none':
+            return (f'rejected call (step {f.get("step")}) changed the executable image ({f["diff"]})', 'text-changed')
+        if before in ('orig', 'cb', 'nil'):
+            # the target was not mocked by this mocker when the rejected call started: it must not be now
+            if beh != before:
+                return (f'rejected call (step {f.get("step")}) changed the target\'s behaviour {before} -> {beh}', 'behaviour-changed')
+        elif beh not in ('stub', 'nomatch'):
+            return (f'after the rejected call (step {f.get("step")}) the earlier configuration no longer answers: {before} -> {beh}', 'behaviour-changed')
+        if before == 'orig' and f.get('reg', 'none') not in ('none', 'stale'):
+            return (f'rejected call left a usable patch registered ({f.get("reg")})', 'registry')
+        if before == 'nil' and f.get('var', 'nil') != 'nil':
+            return ('rejected interface mock still replaced the variable', 'iface-var')
+    if f.get('after', 'ok') != 'ok':
+        return (f'after this sequence a correct mock of the same target no longer works: {f["after"]}', 'after')
     return None
 
 
